@@ -1,6 +1,9 @@
 package quic
 
-import "errors"
+import (
+	"crypto/tls"
+	"errors"
+)
 
 // C28 part (d): packet protection round trip with IDEAL-CRYPTO stubs injected through the interfaces the code uses
 // (cipher.AEAD in packetKey.aead, headerProtection in headerKey.hp):
@@ -15,6 +18,7 @@ import "errors"
 func init() {
 	vfRegister("VerifC28_protect_long", VerifC28_protect_long)
 	vfRegister("VerifC28_protect_short", VerifC28_protect_short)
+	vfRegister("VerifC28_protect_tamper", VerifC28_protect_tamper)
 }
 
 type c28sealed struct{ nonce, ad, pt, tag []byte }
@@ -84,12 +88,16 @@ func c28packetKey() packetKey {
 func c28headerKey() headerKey { return headerKey{hp: c28hp{tab: new([]c28mask)}} }
 
 // c28pnums: (pnum, largest acked by the peer) pairs covering every truncated length and the extremes.
-func c28pnums() (pnum, maxAcked packetNumber) {
+func c28pnums(few bool) (pnum, maxAcked packetNumber) {
 	set := [][2]packetNumber{
-		{0, -1}, {0x7e, -1}, {0x7f, -1}, {0x7fff, 0}, {0x8000, 1}, {0x12345678, 0x12340000}, {0x1000000, 0x7ffffe},
+		{0, -1}, {0x12345678, 0x12340000}, {0x7e, -1}, {0x7f, -1}, {0x7fff, 0}, {0x8000, 1}, {0x1000000, 0x7ffffe},
 		{maxPacketNumber, maxPacketNumber - 1}, {maxPacketNumber, maxPacketNumber - 0x8000}, {1 << 40, 1<<40 - 0x7fffffff},
 	}
-	c := set[vfChoice("pnum", len(set))]
+	n := len(set)
+	if few {
+		n = 1 + vfTier()
+	}
+	c := set[vfChoice("pnum", n)]
 	return c[0], c[1]
 }
 
@@ -101,27 +109,79 @@ func c28payloadLen() int {
 }
 
 func VerifC28_protect_long() {
+	pkt, _, _ := c28protectLong(false)
+	if len(pkt) == 7+2+20 { // header of the smallest shape + length + padded packet number/payload/tag
+		vfReach("padded to the minimum size")
+	}
+	vfReach("end")
+}
+
+// The same with one byte of the protected packet changed afterwards: the ideal AEAD binds header and payload.
+func VerifC28_protect_tamper() {
+	pkt, k, maxAcked := c28protectLong(true)
+	// a change of any single byte of the protected packet (header, length, packet number, payload, tag) is rejected
+	// positions: first byte, first version byte, and everything from the Length field on (Length, packet number,
+	// payload, tag). Changing a connection-ID/token length byte re-frames the whole header (symbolic Length field:
+	// path explosion) and is left out.
+	lenOff := 1 + 4 + 1 + 1 + 1 + 2 + 1 + 1 // shape {1,2,1} Initial packet
+	pos := vfChoice("flip.pos", 2+len(pkt)-lenOff)
+	if pos >= 2 {
+		pos += lenOff - 2
+	}
+	d := []byte{0x01, 0x30, 0x80}[vfChoice("flip.delta", 2+vfTier())] // concrete masks: a symbolic one makes every length field symbolic
+	pkt[pos] ^= d
+	q2, n2 := parseLongHeaderPacket(pkt, k, maxAcked)
+	if n2 != -1 && q2.ptype == packetTypeRetry {
+		// the type bits now say Retry: Retry packets carry no packet protection (their integrity tag is checked by
+		// the caller, retry.go), parseLongHeaderPacket returns them as they are
+		vfAssert(pos == 0, "only a change of the first byte turns the packet into a Retry")
+		vfReach("became a Retry packet")
+	} else {
+		vfAssert(n2 == -1, "modified packet is rejected")
+	}
+	vfObserve("flip.pos", uint64(pos))
+	vfReach("tamper rejected")
+	vfReach("end")
+}
+
+func c28protectLong(vfTamper bool) ([]byte, fixedKeys, packetNumber) {
 	k := fixedKeys{hdr: c28headerKey(), pkt: c28packetKey()}
 	iv0 := c28clone(k.pkt.iv)
 	types := []packetType{packetTypeInitial, packetType0RTT, packetTypeHandshake}
+	tamper := vfTamper
+	shapes := [][3]int{{0, 0, 0}, {1, 2, 1}, {3, 0, 2}, {20, 20, 0}} // dcid, scid, token lengths
+	nshape, ntype := len(shapes), 3
+	if tamper {
+		nshape, ntype = 1, 1
+	}
+	sh := shapes[vfChoice("shape", nshape)]
+	if tamper {
+		sh = shapes[1]
+	}
 	p := longPacket{
-		ptype:     types[vfChoice("ptype", 3)],
+		ptype:     types[vfChoice("ptype", ntype)],
 		version:   vfU32("version"),
-		dstConnID: vfBytes("dcid", vfLen("dcidlen", 0, 2)),
-		srcConnID: vfBytes("scid", vfLen("scidlen", 0, 2)),
+		dstConnID: vfBytes("dcid", sh[0]),
+		srcConnID: vfBytes("scid", sh[1]),
 	}
 	vfAssume(p.version != 0)
 	var maxAcked packetNumber
-	p.num, maxAcked = c28pnums()
+	p.num, maxAcked = c28pnums(tamper)
 	if p.ptype == packetTypeInitial {
-		p.extra = vfBytes("token", vfLen("tokenlen", 0, 2))
+		p.extra = vfBytes("token", sh[2])
 	}
-	npay := vfLen("paylen", 1, c28payloadLen())
+	npay := 1
+	if !tamper && vfBool("longPayload") {
+		npay = c28payloadLen()
+	}
 	payload := vfBytes("payload", npay)
 
 	var w packetWriter
 	w.reset(1200)
-	prefix := vfLen("prefix", 0, 1) // a previous packet in the datagram (coalescing): pktOff > 0
+	prefix := 0
+	if !tamper {
+		prefix = vfLen("prefix", 0, 1) // a previous packet in the datagram (coalescing): pktOff > 0
+	}
 	w.b = append(w.b, vfBytes("earlier", prefix*5)...)
 	w.startProtectedLongHeaderPacket(maxAcked, p)
 	vfAssert(w.avail() >= npay, "room for the payload")
@@ -152,32 +212,15 @@ func VerifC28_protect_long() {
 	vfAssert(c28eqBytes(k.pkt.iv, iv0), "IV restored after unprotect")
 	vfObserve("pktlen", uint64(len(pkt)))
 	vfObserve("pnumlen", uint64(pnumLen))
-	if len(q.payload) > npay {
-		vfReach("padded")
-	}
-	if prefix > 0 {
-		vfReach("coalesced")
-	}
 
-	// any single-byte change of the protected packet body is rejected (ideal AEAD binds header and payload)
-	bad := c28clone(dgram[prefix*5:])
-	pos := len(bad) - 1 - vfChoice("flip", 3)*8 // last tag byte, 8 and 16 bytes before it
-	if pos > 8 {
-		d := vfU8("delta")
-		vfAssume(d != 0)
-		bad[pos] ^= d
-		_, n2 := parseLongHeaderPacket(bad, k, maxAcked)
-		vfAssert(n2 == -1, "modified packet is rejected")
-		vfReach("tamper rejected")
-	}
-	vfReach("end")
+	return c28clone(dgram[prefix*5:]), k, maxAcked
 }
 
 func VerifC28_protect_short() {
 	// one key pair object used for both directions: r and w hold the same ideal keys (current and next phase)
 	hdr := c28headerKey()
 	cur, next := c28packetKey(), c28packetKey()
-	uk := updatingKeys{hdr: hdr, pkt: [2]packetKey{cur, next}}
+	uk := updatingKeys{suite: tls.TLS_AES_128_GCM_SHA256, hdr: hdr, pkt: [2]packetKey{cur, next}}
 	k := &updatingKeyPair{r: uk, w: uk}
 	k.init()
 	if vfBool("phase") {
@@ -189,9 +232,12 @@ func VerifC28_protect_short() {
 		k.updateAfter = 0 // this packet triggers the start of a key update after being protected
 	}
 	updating0 := k.updating
-	pnum, maxAcked := c28pnums()
-	dcid := vfBytes("dcid", vfLen("dcidlen", 0, 3))
-	npay := vfLen("paylen", 1, c28payloadLen())
+	pnum, maxAcked := c28pnums(false)
+	dcid := vfBytes("dcid", []int{0, 3, 8, 20}[vfChoice("dcidlen", 4)])
+	npay := 1
+	if vfBool("longPayload") {
+		npay = c28payloadLen()
+	}
 	payload := vfBytes("payload", npay)
 
 	var w packetWriter
@@ -207,7 +253,12 @@ func VerifC28_protect_short() {
 	vfAssert(c28eqBytes(pkt[1:1+len(dcid)], dcid), "destination connection ID in the clear")
 
 	q, err := parse1RTTPacket(pkt, k, len(dcid), maxAcked)
-	vfAssert(err == nil, "packet unprotects")
+	// Known finding: a key update that starts right after this packet was protected sets minReceived to the
+	// sentinel maxPacketNumber; a current-phase packet numbered exactly 2^62-1 then fails `pnum < k.minReceived`
+	// and is tried with the next-phase key.
+	vfAssertKF(err == nil, "packet unprotects", "C28-keyupdate-sentinel-maxpnum",
+		pnum == maxPacketNumber && !updating0 && k.updating)
+	vfAssert(err == nil, "packet unprotects (outside the known finding)")
 	vfAssert(q.num == pnum, "packet number")
 	vfAssert(len(q.payload) >= npay && c28eqBytes(q.payload[:npay], payload), "payload")
 	for i := npay; i < len(q.payload); i++ {
